@@ -31,10 +31,27 @@ var commonAssumptions = []string{
 }
 
 var plans = map[string]Plan{
+	"C01": {
+		Stages: []Stage{
+			{Harness: "hio", Config: "benign", Quick: 30000, Thorough: 3000000, QuickSec: 70, ThoroughSec: 1200},
+			{Harness: "hio", Config: "errors", Quick: 15000, Thorough: 1500000, QuickSec: 40, ThoroughSec: 600},
+		},
+		Rule: "one run = a tape-drawn reader composition (in-memory bit reader, zero reader, file stack IOBitReadSeeker(ahead?(progress?(ctx?(simulated disk)))) bare or clamped by bitiox.Range, section, multi, clone, byte round trip IOBitReadSeeker(IOReadSeeker(x)), limit) and 10..70 operations on it and its clones (ReadBits, ReadBitsAt, SeekBits start/current/end, ReadFull/ReadAtFull, clone, IOReader/IOReadSeeker byte views with 1..512 byte buffers, bitio.Copy into Buffer and IOBitWriter+Flush) while the simulated disk returns short reads, zero reads, latency and (config errors) transient/persistent EIO and the context is cancelled at a tape-chosen step; oracle: a reference bit-string model per node - count in range, no bit beyond the logical end, returned bits equal the model, EOF only at the logical end, seek results equal the model, byte views and writers equal the model zero padded; under error-class faults an operation may fail but never return wrong bits, and no call blocks forever; distinct = distinct (schedule, operation log) fingerprint; non-trivial = at least three operations executed",
+		Real: []string{"pkg/bitio (all readers, adapters, writer)", "internal/bitiox", "internal/aheadreadseeker", "internal/progressreadseeker", "internal/ctxreadseeker (statement-level yields, simulated channel rendezvous)"},
+		Stub: []string{"disk (io.ReadSeeker with fault injection)", "sink (io.Writer)", "scheduler"},
+		Assumptions: append([]string{
+			"read-at offsets are >= 0; a seek to a negative target may answer anything and is followed by an absolute seek",
+			"a byte view (IOReadSeeker) over a source whose length is not a whole number of bytes is only read forward and seeked absolutely to whole bytes: where its end lies for seeking is not defined by the statement",
+			"under error-class faults content is still compared for whatever an operation returns; only the failure of the operation itself is accepted",
+		}, commonAssumptions...),
+		ExpectProbes: []string{"ctx_layer", "progress_fn", "multi_child", "section_clamp", "big_read", "unaligned_readat", "eof_with_bits", "seek_end", "seek_current", "clone", "byte_view", "bit_writer", "resync_after_fault", "read_full", "disk_short_read", "disk_zero_read", "disk_eio_transient", "disk_eio_persistent", "ctx_cancel"},
+	},
 	"C20": {
 		Stages: []Stage{
 			{Harness: "hctx", Config: "default", Quick: 40000, Thorough: 4000000, QuickSec: 60, ThoroughSec: 900},
 			{Harness: "hctx", Config: "default", Race: true, Quick: 2000, Thorough: 100000, QuickSec: 40, ThoroughSec: 600},
+			// cancellation while a read or seek of the ctx reader is in flight (race mode)
+			{Harness: "hio", Config: "errors", Race: true, Quick: 1500, Thorough: 60000, QuickSec: 40, ThoroughSec: 400},
 		},
 		Rule: "one run = a tape-drawn list of 3..12 push/finish/observe/write/stop operations by an evaluator task against 0..3 interrupts by an interrupter task, scheduled at statement level (policy drawn per run) over the real ctxstack; oracle: history linearizable (porcupine) against a stack-of-contexts model, no panic in any task, no deadlock, no race report in race mode; distinct = distinct schedule fingerprint (FNV of the event log); non-trivial = at least two recorded operations",
 		Real: []string{"internal/ctxstack (statement-level yields)", "internal/iox.CtxWriter", "context"},
